@@ -13,6 +13,8 @@ import Penguin.Model.Mux
 import Penguin.Lemmas.Link
 import Penguin.Lemmas.LinkGlue
 import Penguin.Lemmas.PairHarness
+import Penguin.Model.WakerN
+import Penguin.Lemmas.WakerNInv
 
 namespace Penguin.C03
 open Penguin Penguin.Link
@@ -215,5 +217,43 @@ private def hhist : List (Pair.Side × Pair.Stim) :=
    (.A, .call (.shutdown 0)), (.B, .deliver), (.B, .call (.read 0 9))]
 example : ((Pair.stimRun (Pair.init pcfg pcfg [7, 8] [9, 10]) hhist).map (fun q => (q.gb.rlog 0, q.gb.eof 0))) =
     some ([1, 2, 3], true) := by decide
+
+/-! ### One write, one unit — with several tasks writing to ONE stream at the same time
+
+`one_write_one_credit` is about the writes of a stream one after the other (`AsyncWrite` takes
+`&mut self`).  The frame-level entry points `poll_write_push` / `poll_obtain_write_permission` take
+`&self`, so several tasks can write to one stream concurrently; the small-step model `Model/WakerN`
+(one step = one atomic operation of any of the threads, see `Props/C12.lean`) covers that. -/
+
+open Penguin.WakerN Penguin.Lemmas.WakerN in
+/-- For every scenario (any initial credit = the window the peer advertised, any number of writer
+    threads and polls, any number of `acknowledge(n)` / close threads) and every interleaving of the
+    atomic operations: every successful write (`Ready(Some(()))`) is exactly one `Push` handed to the
+    task; the credit left plus the successful writes plus the units held by writers whose `Push` is
+    their next operation is exactly the window plus the credit returned by acknowledgements so far — no
+    unit is spent twice, whoever wins a race for it; so the `Push`es never exceed window + returned
+    credit, and never what the peer advertised and acknowledged altogether. -/
+theorem one_write_one_credit_under_concurrency (sc : WakerN.Scenario) (ls : List WakerN.Label) :
+    let s := WakerN.run sc ls
+    totalSome s = totalSent s ∧
+    s.credit + totalSome s + inFlight s = sc.credit + s.grants ∧
+    totalSent s ≤ sc.credit + s.grants ∧ sc.credit + s.grants ≤ sc.credit + sc.ackTotal := by
+  intro s
+  have inv : Lemmas.WakerN.Inv sc s := Lemmas.WakerN.run_inv sc ls
+  have h0 := totalSome_eq_totalSent inv
+  have h1 := inv.conservation
+  have h2 := totals inv
+  have h3 := inv.grants
+  refine ⟨h0, ?_, ?_, ?_⟩ <;> omega
+
+/-- Non-vacuity: window 1, two tasks writing, one acknowledgement of 1: two writes succeed, two `Push`es,
+    no credit left (writer 1's first `compare_exchange` loses against writer 0's, it waits, is woken by
+    the acknowledgement's arrival in its re-check). -/
+example :
+    let s := WakerN.run ⟨1, [1, 1], [.ack 1]⟩ [.writer 0, .writer 1, .writer 0, .writer 1, .writer 0, .writer 1,
+      .writer 0, .writer 1, .writer 1, .actor 0, .writer 1, .writer 1, .writer 1, .writer 1, .actor 0]
+    WakerN.allWritersFinished s = true ∧ WakerN.totalSome s = 2 ∧ WakerN.totalSent s = 2 ∧ s.credit = 0 ∧
+      s.grants = 1 := by
+  decide
 
 end Penguin.C03
